@@ -16,23 +16,6 @@
 EXTENDS Bytes, Integers
 
 IntFields == {2, 4, 5, 8, 9}
-Digits == 48..57
-IsDigits(s) == s # <<>> /\ \A i \in 1..Len(s) : s[i] \in Digits
-
-\* strconv.Atoi syntax (range is not modelled: drivers stay inside int64)
-AtoiSyntax(s) == IF s # <<>> /\ s[1] \in {PLUS, MINUS} THEN IsDigits(Tail(s)) ELSE IsDigits(s)
-
-RECURSIVE StripZeros(_)
-StripZeros(d) == IF Len(d) > 1 /\ d[1] = 48 THEN StripZeros(Tail(d)) ELSE d
-
-\* the canonical text of the integer a syntactically valid text denotes
-CanonInt(s) ==
-  LET neg == s[1] = MINUS
-      d   == StripZeros(IF s[1] \in {PLUS, MINUS} THEN Tail(s) ELSE s)
-  IN IF neg /\ d # <<48>> THEN <<MINUS>> \o d ELSE d
-
-IsCanonInt(s) == AtoiSyntax(s) /\ CanonInt(s) = s
-
 HexDigit(n) == IF n < 10 THEN 48 + n ELSE 87 + n                   \* lower case
 HexEncode(bs) == FlattenSeq([i \in 1..Len(bs) |-> <<HexDigit(bs[i] \div 16), HexDigit(bs[i] % 16)>>])
 HexVal(c) == IF c \in 48..57 THEN c - 48 ELSE IF c \in 97..102 THEN c - 87 ELSE IF c \in 65..70 THEN c - 55 ELSE 0 - 1
@@ -43,11 +26,6 @@ HexDecode(s) == [i \in 1..(Len(s) \div 2) |-> 16 * HexVal(s[2 * i - 1]) + HexVal
 (* writer *)
 Tag(k, ty, v) == [key |-> k, ty |-> ty, val |-> v]
 TagText(t) == t.key \o <<COLON>> \o t.ty \o <<COLON>> \o (IF t.ty = <<72>> THEN HexEncode(t.val) ELSE t.val)
-
-LexLess(a, b) ==      \* bytewise string order (sort.Strings)
-  \E k \in 1..(Len(a) + 1) :
-     /\ \A i \in 1..(k - 1) : i <= Len(b) /\ a[i] = b[i]
-     /\ IF k = Len(a) + 1 THEN Len(b) > Len(a) ELSE (k <= Len(b) /\ a[k] < b[k])
 
 SortedTexts(ts) == SetToSortSeq({ TagText(ts[i]) : i \in 1..Len(ts) }, LexLess)
 
